@@ -193,7 +193,8 @@ pub fn check(c: &Case) -> Verdict {
     // far more headers than blocks), so that the block records spread over several thousand keys
     if c.extras.first().map(|e| e.at % 10 == 3).unwrap_or(false) {
         let proto = built.blocks[n - 1].1.clone();
-        for k in 0..4300u32 {
+        let count = 4300 + (c.extras.first().map(|e| e.at as u32 / 10 % 4).unwrap_or(0)) * 5000;
+        for k in 0..count {
             let mut b = proto.clone();
             b.nonce = b.nonce.wrapping_add(0x10_0000 + k);
             b.version = 2;
